@@ -48,9 +48,42 @@ def BOUNDS(tier):
     return {"plans": [[4, 2], [5, 1], [3, 3]]}
 
 
+def scenario_message_reuse():
+    """One deprecated Message object written several times (to an explicit logger outside any action,
+    then to the default logger inside an action, then bound and written again): every default-logger
+    write must be a child of the action."""
+    from eliot import Message, MemoryLogger, start_action
+
+    viol = []
+
+    def go():
+        import io
+
+        buf = io.BytesIO()
+        progs.eliot.to_file(buf)
+        other = MemoryLogger()
+        msg = Message.new(message_type="app:reused", x=1)
+        msg.write(other)
+        with start_action(action_type="app:X"):
+            msg.write()
+            msg.bind(y=2).write()
+        msg.write()
+        return buf.getvalue(), list(other.messages)
+
+    raw, other = progs.world.run_isolated(go)
+    dicts = progs.parse_lines(raw)
+    if len(other) != 1:
+        viol.append(("message-reuse:explicit-logger-writes", {"got": len(other)}))
+    tasks = list(progs.Parser.parse_stream(dicts))
+    shapes = sorted(progs.shape_sig([progs.from_written(t.root())]) for t in tasks)
+    if shapes != ["a(m m)", "m"] or not all(t.is_complete() for t in tasks):
+        viol.append(("message-reuse:default-logger-tree", {"got": shapes, "lines": len(dicts)}))
+    return viol
+
+
 def units(tier):
     """unit = (n_nodes, max_devs, shape_index, only_exact_devs)"""
-    out = []
+    out = [["scenario", "message-reuse"]]
     done = {}  # n -> devs already fully covered
     for n_max, devs in BOUNDS(tier)["plans"]:
         for n in range(1, n_max + 1):
@@ -65,6 +98,9 @@ def units(tier):
 
 
 def cases(unit, tier):
+    if unit[0] == "scenario":
+        yield ["scenario", unit[1]]
+        return
     n, dlo, dhi, si = unit
     shape = None
     for i, sh in enumerate(progs.forests(n)):
@@ -93,6 +129,17 @@ def check_program(prog):
         return [("file-not-json-lines", {"error": repr(e)})], "unparseable"
     if len(dicts) != len(seen):
         viol.append(("lines-vs-delivered", {"lines": len(dicts), "delivered": len(seen)}))
+    else:
+        # a destination that keeps the dictionaries and encodes them later must see the same thing
+        for i, (line, kept) in enumerate(zip(dicts, seen)):
+            try:
+                later = json.loads(progs.eliot.json._dumps_bytes(kept, default=progs.eliot.json.json_default))
+            except Exception as e:
+                viol.append(("delivered-dict-not-encodable-later", {"index": i, "error": repr(e)[:100]}))
+                break
+            if later != line:
+                viol.append(("delivered-dict-changed-after-delivery", {"index": i, "at_delivery": repr(line)[:200], "later": repr(later)[:200]}))
+                break
     try:
         tasks = list(progs.Parser.parse_stream(dicts))
     except Exception as e:
@@ -149,6 +196,9 @@ def _norm_ref(r):
 
 
 def run_case(prog):
+    if prog and prog[0] == "scenario":
+        v = scenario_message_reuse()
+        return Result(outcome=["scenario", len(v)], violations=v)
     viol, outcome = check_program(prog)
     nodes = progs.walk(prog)
     nontrivial = len(nodes) > 1 or any(v for n in nodes for v in n[1].values())
